@@ -211,4 +211,55 @@ PROPS['C04'] = {
     'assumptions': [CORR],
 }
 
+PROPS['C12'] = {
+    'lean_targets': ['EmmetProps.C12'],
+    'lean_imports': ['EmmetProps.C12'],
+    'theorems': [
+        thm('EmmetProps.C12_weave_sq', 'for EVERY forest, option set and layout (indent, baseIndent, newline, format, formatLeafNode, formatSkip, formatForce, inlineBreak): the two outputs are equal once white space is removed — same tags, attributes, text, tabstop numbers, same order'),
+        thm('EmmetProps.C12_level_restored', 'element() returns the stream at the indentation level it was given: children are entered at one level, closing tag at the level of the opening tag', partial=True),
+    ],
+    'domains': ['dom_markup'],
+    'rule': 'random abbreviations from the typed AST generator (block / inline / void names, implicit names, attributes, single- and multi-line text, repeaters, groups) x two independent random assignments of all output.* formatting options, for html / xml / xsl / jsx / vue / svelte; per case also: comments enabled, the three self-closing styles; indentation measured per line against the number of open elements; non-trivial = at least two operators; distinct = distinct (abbreviation, config)',
+    'explanation': 'The weave theorem covers every forest / option pair for the white-space-insensitive observation; the level-restoration lemma is the induction step of indentation = depth, whose full line-level statement (and the comment / self-closing clauses; the comment add-on is not modelled) is decided by the oracle on the implementation.',
+    'level_text': 'Lean 4 theorem: formatting options change nothing but white space, for ALL forests and option sets (observation: output with white space removed). Indentation = depth: level-restoration lemma proved, line-level statement at oracle level (partial). Comments and self-closing style clauses: oracle on the implementation.',
+    'level_note': 'Trusted: Lean kernel + standard axioms; hand-written model of output_stream.py and format/html.py (0 differences with expand() on all explored inputs). Known finding F25 (blank line / mis-indented inline child after multi-line text in an element that has children) is excluded from the indentation clause.',
+    'assumptions': [CORR],
+}
+
+PROPS['C13'] = {
+    'lean_targets': ['EmmetProps.C13'],
+    'lean_imports': ['EmmetProps.C13'],
+    'theorems': [thm('EmmetProps.C13_offsets', 'for EVERY stream program and ARBITRARY field / text callbacks (text keeping the length of the newline string): offset = |value|, every returned piece sits at the offset it was given, line = number of newline pushes, column = distance to the end of the last newline string', partial=True)],
+    'domains': ['dom_markup'],
+    'rule': 'random abbreviations with empty attribute values, leaves, explicit ${n} / ${n:placeholder} fields in attribute values and leaf text, multi-line text, in html / xml / jsx / vue / xsl / svelte / haml / pug / slim with random newline (\\n, \\r\\n, \\r), indent and baseIndent; recording callbacks: EVERY invocation of output.field and output.text is re-located in the final string; tabstop indices compared with the running-base rule of the statement; non-trivial = at least two operators; distinct = distinct (abbreviation, config)',
+    'explanation': 'Position exactness is a theorem about the OutputStream model for arbitrary programs and callbacks (abstract stream model; the concrete formatter models are such programs, their closure lemmas are future work); numbering is decided by correspondence + oracle.',
+    'level_text': 'Lean 4 theorem on the OutputStream model: for every program over the stream operations and arbitrary callbacks, offsets / lines / columns handed to callbacks are exact (partial: stated on an abstract stream model, not yet instantiated by the formatter models). Tabstop numbering: correspondence + statement-derived oracle; positions additionally re-checked on every callback of every run.',
+    'level_note': 'Trusted: Lean kernel + standard axioms; models tied by correspondence. Domain of the numbering clause: distinct attribute names per element, explicit fields in text only on leaves.',
+    'assumptions': [CORR],
+}
+
+PROPS['C14'] = {
+    'lean_targets': ['EmmetProps.C14'],
+    'lean_imports': ['EmmetProps.C14'],
+    'theorems': [thm('EmmetProps.C14_terminates', 'for EVERY snippet table (self-referencing and mutually recursive included), every forest: resolution with nesting counter |table|+1 never runs out — nesting is at most the number of snippets', partial=True)],
+    'domains': ['dom_markup'],
+    'rule': 'exhaustive: every entry of the live html, xsl and pug snippet tables x both attribute orders: expand(alias) must equal expand(definition); entries whose definition is a single element additionally with added class / id / attribute set / text / *2, chain definitions with added children (alone and inside a larger abbreviation); plus random user tables over 7 names with self-references and cycles; non-trivial = at least two operators; distinct = distinct (abbreviation, config)',
+    'explanation': 'Termination is a theorem on an abstract resolver (nesting counter + structural tree recursion); alias = definition and the merge rules are decided exhaustively over the live tables by the oracle on the implementation plus correspondence with the model.',
+    'level_text': 'Lean 4 theorem: snippet resolution terminates for every table with nesting bounded by the table size (abstract resolver; partial: the concrete resolver model still uses one shared fuel). Alias = definition: exhaustive over the built-in tables on the implementation.',
+    'level_note': 'Trusted: Lean kernel + standard axioms; models of snippets.py / attributes.py tied by correspondence.',
+    'assumptions': [CORR],
+}
+
+PROPS['C15'] = {
+    'lean_targets': ['EmmetProps.C15'],
+    'lean_imports': ['EmmetProps.C15'],
+    'theorems': [thm('EmmetProps.C15_level_restored', 'the indent formatter element() returns the stream at the level it was given, for every node, punctuation set, option set and stream state: a child is written one level deeper than its parent', partial=True)],
+    'domains': ['dom_markup'],
+    'rule': 'random abbreviations (elements with ids, classes, valued attributes, single- and multi-line text, repeaters, groups, implicit names) for haml / pug / slim with random indent strings; expected line list (depth, header, attribute list, text lines) computed from the statement and the denoted tree; non-trivial = at least two operators; distinct = distinct (abbreviation, config)',
+    'explanation': 'Level restoration is the induction step of "indentation = depth"; the full line list is decided by correspondence + the statement-derived oracle.',
+    'level_text': 'Lean 4 lemma (level restoration, all nodes / options / syntaxes) + correspondence of the indent formatter model with expand() + statement-derived line oracle (partial: the line-list theorem is future work).',
+    'level_note': 'Trusted: Lean kernel + standard axioms; model of indent_format.py tied by correspondence. Domain: text on elements (text-only child nodes excluded), valued attributes.',
+    'assumptions': [CORR],
+}
+
 NOT_APPLICABLE = {}
